@@ -26,7 +26,10 @@ NAMES = ["fmt", "my-format", "a{b}", "100%", "%s", "{0}", "{format}", "é", "", 
          "line\nbreak", "quo'te",
          # names other vocabularies give a meaning to (OpenAPI, later drafts): here they are names like any
          # other - nothing is registered under them unless the caller does it
-         "int32", "int64", "float", "double", "regex", "ipv4", "hostname", "uri", "time", "byte", "password"]
+         "int32", "int64", "float", "double", "regex", "ipv4", "hostname", "uri", "time", "byte", "password",
+         # spellings earlier drafts / other tools use for names above: distinct names, no aliasing
+         "ip-address", "host-name", "uriref", "uri-reference", "date_time", "datetime", "Date-Time", "uuid4",
+         "ipv6", "idn-hostname", "email ", "e-mail"]
 EXTREME_NONSTRINGS = [2 ** 31, -(2 ** 31) - 1, 2 ** 63, 2 ** 64, 10 ** 400, 1e308, -0.0, 2 ** 53 + 1]
 HOSTILE_FORMAT_STRINGS = ["a{4294967295}", "(" * 1200 + ")" * 1200, "[", "(?P<x>a)(?P<x>b)", "\\", "*", "a{2,1}", "(?i)" * 50]
 REQUIRED_COUNTERS = [
@@ -74,6 +77,44 @@ class Checker:
         if self.mode == "hash_list":
             return [value] if verdict else 0
         return verdict
+
+
+def callable_shapes(checker):
+    """The same predicate as callables of other shapes a user may register: functions whose further parameters
+    have defaults (and names a registry might be tempted to fill in), a partial, a bound method, a lambda.
+    Being called with anything but the one value is logged as a consultation by serial -1."""
+    import functools  # pylint: disable=import-outside-toplevel
+
+    def tampered(*extra):
+        checker.log.append((-1, repr(extra)))
+
+    def with_format(value, format="%Y-%m-%d"):  # pylint: disable=redefined-builtin
+        if format != "%Y-%m-%d":
+            tampered("format", format)
+        return checker(value)
+
+    def with_name(value, name=None, fmt=None, checker_=None, **kwargs):
+        if name is not None or fmt is not None or checker_ is not None or kwargs:
+            tampered(name, fmt, checker_, kwargs)
+        return checker(value)
+
+    def with_star(value, *args, **kwargs):
+        if args or kwargs:
+            tampered(args, kwargs)
+        return checker(value)
+
+    def two_arguments(flag, value):
+        if flag != "bound":
+            tampered(flag)
+        return checker(value)
+
+    class Holder:
+        def method(self, value):
+            return checker(value)
+
+    return [with_format, with_name, with_star, functools.partial(two_arguments, "bound"), Holder().method,
+            lambda value, format=None, strict=False: checker(value) if (format, strict) == (None, False)
+            else tampered(format, strict)]
 
 
 WRAPPED_KINDS = ["pn_plain", "pn_allof", "pn_anyof", "pn_not_not", "pn_parsed_typelist", "allof_wrapped",
@@ -149,7 +190,11 @@ def histories(ctx, sut):
             if rng.random() < 0.3:
                 serial += 1
                 checker = Checker(serial, log, rng.choice(["hash", "hash", "all", "none", "hash_none", "hash_str", "hash_list"]))
-                format_checker.register(name)(checker)
+                registered = checker
+                if rng.random() < 0.3:
+                    registered = rng.choice(callable_shapes(checker))
+                    ctx.count("register.other_callable_shape")
+                format_checker.register(name)(registered)
                 if name in model:
                     stale.setdefault(name, []).append(model[name])
                     ctx.count("reregister")
